@@ -1,6 +1,7 @@
 package main
 
 import (
+	"context"
 	"fmt"
 	"math/big"
 	"strings"
@@ -126,6 +127,22 @@ func genC10(out *Out, r *Rng, tier string, n int, shard int) {
 				}
 				hv, herr := merklize.HashValueWithHasher(hs.H, dt, raw)
 				o := J{"dt": dt, "raw": raw, "leaf": leaf, "val": goValJ(raw)}
+				// the Value returned with the proof: same hash as the leaf, Go kind implied by the datatype
+				if _, pv, perr := mz.Proof(context.Background(), path); perr != nil || pv == nil {
+					o["pverr"] = fmt.Sprintf("no proof/value for the stored path: %v", perr)
+				} else if ph, e2 := pv.MtEntry(); e2 != nil || ph.Cmp(leaf) != 0 {
+					o["pverr"] = fmt.Sprintf("the Value returned with the proof hashes to %v (%v), the leaf is %v", ph, e2, leaf)
+				} else {
+					kind := "str"
+					if pv.IsBool() {
+						kind = "bool"
+					} else if pv.IsTime() {
+						kind = "time"
+					} else if pv.IsBigInt() || pv.IsInt64() {
+						kind = "int"
+					}
+					o["pvkind"] = kind
+				}
 				if herr != nil {
 					o["herr"] = herr.Error()
 				} else {
@@ -163,6 +180,11 @@ func genC10(out *Out, r *Rng, tier string, n int, shard int) {
 			}
 			if len(why) > 0 && indexed && foundAtOtherPosition(mz, hs, parts, dt, leaf) {
 				tags = append(tags, "shape:sibling-permutation")
+			}
+			if pe, bad := res["pverr"]; bad {
+				why = append(why, fmt.Sprint(pe))
+			} else if pk, ok := res["pvkind"].(string); ok && pk != kindOfDatatype(dt) {
+				why = append(why, fmt.Sprintf("the Value returned with the proof has kind %s for datatype %s", pk, dt))
 			}
 			// value kind returned with the proof
 			k, _ := valueJ(e.VerifValue())
